@@ -23,6 +23,14 @@ Proof.
   pose proof (Z.div_mod l 4 ltac:(lia)). pose proof (Z.div_mod (nearest_padded_go l) 4 ltac:(lia)). lia.
 Qed.
 
+(* decodeString and decodeBytes check the same conditions (the model uses one decoder for both) *)
+Lemma string_conditions_agree : forall lenb strLen,
+  long_header_short_string_go lenb = long_header_short_bytes_go lenb /\
+  long_payload_short_string_go lenb strLen = long_payload_short_bytes_go lenb strLen /\
+  short_payload_short_string_go lenb strLen = short_payload_short_bytes_go lenb strLen /\
+  short_len_invalid_string_go strLen = short_len_invalid_bytes_go strLen.
+Proof. intros; repeat split; reflexivity. Qed.
+
 (* ---------- take / peek ---------- *)
 
 Lemma take_app p r : take (len p) (p ++ r) = Ok (p, r).
@@ -249,7 +257,7 @@ Lemma decode_bytes_raw_short_form v t : len v <= 253 ->
   decode_bytes_raw ([len v] ++ v ++ t) = Ok (nearest_padded_go (len v + 1), v).
 Proof.
   intros H. pose proof (len_nonneg v). pose proof (len_nonneg t).
-  unfold decode_bytes_raw, c_firstLongStringByte, c_maxSmallStringLength.
+  unfold decode_bytes_raw, long_header_short_bytes_go, long_payload_short_bytes_go, short_payload_short_bytes_go, short_len_invalid_bytes_go, c_firstLongStringByte, c_maxSmallStringLength.
   assert (L : len ([len v] ++ v ++ t) = 1 + len v + len t) by (rewrite !len_app; change (len [len v]) with 1; lia).
   rewrite L. destruct (Z.eqb_spec (1 + len v + len t) 0); [lia|].
   cbn [app]. rewrite go_index_0. cbn [bind].
@@ -265,7 +273,7 @@ Lemma decode_bytes_raw_long_form v t : 0 <= len v < 2 ^ 24 ->
   decode_bytes_raw ([254] ++ le_enc 3 (len v) ++ v ++ t) = Ok (nearest_padded_go (len v + 4), v).
 Proof.
   intros H. pose proof (len_nonneg t).
-  unfold decode_bytes_raw, c_firstLongStringByte.
+  unfold decode_bytes_raw, long_header_short_bytes_go, long_payload_short_bytes_go, short_payload_short_bytes_go, short_len_invalid_bytes_go, c_firstLongStringByte.
   assert (L : len ([254] ++ le_enc 3 (len v) ++ v ++ t) = 4 + len v + len t)
     by (rewrite !len_app, len_le_enc; change (len [254]) with 1; lia).
   rewrite L. destruct (Z.eqb_spec (4 + len v + len t) 0); [lia|].
@@ -318,7 +326,7 @@ Inductive bytes_outcome (b : list Z) : dres (list Z) -> Prop :=
 
 Lemma decode_bytes_outcome b : bytes_ok b -> bytes_outcome b (decode_bytes b).
 Proof.
-  intros OK. unfold decode_bytes, decode_bytes_raw, c_firstLongStringByte, c_maxSmallStringLength.
+  intros OK. unfold decode_bytes, decode_bytes_raw, long_header_short_bytes_go, long_payload_short_bytes_go, short_payload_short_bytes_go, short_len_invalid_bytes_go, c_firstLongStringByte, c_maxSmallStringLength.
   pose proof (len_nonneg b) as Hb.
   destruct (Z.eqb_spec (len b) 0) as [|NZ]; [constructor|].
   rewrite go_index_ok by lia. cbn [bind]. change (Z.to_nat 0) with 0%nat.
@@ -393,7 +401,7 @@ Proof.
   assert (LE := encode_bytes_len v).
   set (e := encode_bytes v) in *.
   assert (Lk : len (firstn k e) = Z.of_nat k) by (apply len_firstn; lia).
-  unfold decode_bytes, decode_bytes_raw, c_firstLongStringByte, c_maxSmallStringLength.
+  unfold decode_bytes, decode_bytes_raw, long_header_short_bytes_go, long_payload_short_bytes_go, short_payload_short_bytes_go, short_len_invalid_bytes_go, c_firstLongStringByte, c_maxSmallStringLength.
   rewrite Lk.
   destruct (Z.eqb_spec (Z.of_nat k) 0); [reflexivity|].
   rewrite go_index_ok by lia. cbn [bind]. change (Z.to_nat 0) with 0%nat.
@@ -632,7 +640,7 @@ Qed.
 (* malformed input *)
 Lemma decode_bytes_invalid b : 256 <= len b -> nth 0 b 0 = 255 -> decode_bytes b = Err EInvalidLength.
 Proof.
-  intros L N. unfold decode_bytes, decode_bytes_raw, c_firstLongStringByte, c_maxSmallStringLength.
+  intros L N. unfold decode_bytes, decode_bytes_raw, long_header_short_bytes_go, long_payload_short_bytes_go, short_payload_short_bytes_go, short_len_invalid_bytes_go, c_firstLongStringByte, c_maxSmallStringLength.
   destruct (Z.eqb_spec (len b) 0); [lia|]. rewrite go_index_ok by lia. cbn [bind].
   change (Z.to_nat 0) with 0%nat. rewrite N. cbn [Z.eqb Pos.eqb].
   destruct (Z.ltb_spec (len b) (255 + 1)); [lia|]. reflexivity.
